@@ -165,5 +165,13 @@ class SimulationHistory:
 
         raise ValueError("No matching hash")
 
+    def last_playlog(self) -> PlayLog:
+        """Most recent playlog of the whole history. Logs without playlogs (console) are skipped."""
+        for log in reversed(self._logs):
+            if len(log.playlogs) > 0:
+                return log.last()
+
+        raise ValueError("History has no playlog")
+
     def _current_ckpt(self) -> Checkpoint:
-        return self._logs[-1].last().checkpoint
+        return self.last_playlog().checkpoint
